@@ -146,8 +146,12 @@ type Result struct {
 	Exhaustive      map[string]bool   `json:"exhaustive"`       // named parts of the case space that were enumerated completely
 	FullyExhaustive bool              `json:"fully_exhaustive"` // the whole (finite) case space of the check was enumerated
 	Notes           map[string]string `json:"notes"`
-	WallS           float64           `json:"wall_s"`
-	Done            bool              `json:"done"`
+	// Digests are results that must not depend on the process they were
+	// computed in (its history of earlier calls): the driver compares the
+	// values reported for the same key by different child processes.
+	Digests map[string]string `json:"digests"`
+	WallS   float64           `json:"wall_s"`
+	Done    bool              `json:"done"`
 }
 
 const (
@@ -176,7 +180,7 @@ func NewCtx(prop, tier string, seed uint64, batch, nbatch int) *Ctx {
 	c := &Ctx{Prop: prop, Tier: tier, Seed: seed, Batch: batch, NBatch: nbatch, Args: map[string]string{}}
 	c.R = Result{Prop: prop, Tier: tier, Seed: seed,
 		Obs: map[string]int64{}, ObsMax: map[string]int64{}, Floors: map[string]int64{},
-		ViolationKeys: map[string]int64{}, Exhaustive: map[string]bool{}, Notes: map[string]string{}}
+		ViolationKeys: map[string]int64{}, Exhaustive: map[string]bool{}, Notes: map[string]string{}, Digests: map[string]string{}}
 	c.sigs = map[uint64]struct{}{}
 	c.start = time.Now()
 	c.sampleGate = map[string]int{}
@@ -244,6 +248,9 @@ func (c *Ctx) Sample(class string, s any) {
 	c.sampleGate[class]++
 	c.R.Samples = append(c.R.Samples, map[string]any{"class": class, "case": s})
 }
+
+// Digest records a process-independent result for cross-process comparison.
+func (c *Ctx) Digest(key, value string) { c.R.Digests[key] = value }
 
 func (c *Ctx) Inconclusive(why string) { c.R.Inconclusive = append(c.R.Inconclusive, why) }
 func (c *Ctx) Note(k, v string)        { c.R.Notes[k] = v }
